@@ -385,6 +385,26 @@ func (fc *FnCtx) exec(st *State, s ast.Stmt, label string) []Outcome {
 		fc.pushDefer(st, s.Call)
 		return normal(st)
 	case *ast.GoStmt:
+		// A spawned function literal that has its own contract Outer$N is verified separately; its requires clauses are
+		// proof obligations here, at the spawn site. With `checkgo` in the enclosing contract, any other spawned call is
+		// executed on a forked state so that the obligations inside it (callee preconditions, callpre clauses) are
+		// generated in the spawn-time context; its effects are not carried over (interleaving is not modelled).
+		fc.root().spawned = true
+		if lit, ok := s.Call.Fun.(*ast.FuncLit); ok && fc.pkg.cf != nil {
+			if ct := fc.pkg.cf.Contracts[fc.closureKey(lit)]; ct != nil && len(ct.Requires) > 0 {
+				env := &SpecEnv{fc: fc, st: st, old: st, scope: map[string]Val{}, oldScope: map[string]Val{}, pkg: fc.pkg, useVars: true}
+				for i, rq := range ct.Requires {
+					v := fc.safeSpec(env, rq.E, rq.Text)
+					fc.assertNamed(st, "spawn", fmt.Sprintf("%s.%s", ct.Key, clauseName(rq, i)), v.T, "precondition of spawned "+ct.Key+": "+rq.Text, s.Pos())
+				}
+				return normal(st)
+			}
+		}
+		if r := fc.root(); r.ct != nil && r.ct.CheckGo {
+			st2 := st.clone()
+			fc.evalCall(st2, s.Call)
+			return normal(st)
+		}
 		fc.warn("go statement: spawned function is not part of this proof (%s)", trunc(exprText(s.Call.Fun), 40))
 		return normal(st)
 	case *ast.SendStmt:
@@ -1219,15 +1239,23 @@ func (fc *FnCtx) chanSend(st *State, ch Val, v Val, s *ast.SendStmt) []Outcome {
 		}
 	}
 	open := sel(fc.comp(st, chanOpenKey, chanOpenSort), ch.T)
+	bump := func(x *State) {
+		if x.sends == "" {
+			x.sends = "0"
+		}
+		x.sends = "(+ " + x.sends + " 1)"
+	}
 	if st.recov > 0 {
 		// panic path allowed
 		p := st.clone()
 		p.assume(not(open))
 		st.assume(open)
+		bump(st)
 		return []Outcome{{kind: oNormal, st: st}, {kind: oPanic, st: p}}
 	}
 	fc.assert(st, "chan", "send-open:"+exprText(s.Chan), s.Pos(), open, "send on a channel that may have been closed (no recover scope)")
 	st.assume(open)
+	bump(st)
 	return normal(st)
 }
 
